@@ -162,6 +162,28 @@ fn cases(tier: Tier) -> &'static Vec<Case> {
                 });
             }
         }
+        // bodies after a long history of plain exchanges on the connection
+        for h in history_lengths(deep(tier)) {
+            for n in [1usize, 1024, 1025, 20000] {
+                let body = payload(n);
+                let mut framings: Vec<(String, Vec<u8>)> = Vec::new();
+                let mut m = head(CANON, None, Some(n), false);
+                m.extend_from_slice(&body);
+                framings.push(("cl".into(), m));
+                let mut m = head(CANON, Some("chunked"), None, true);
+                m.extend_from_slice(&chunked(&body, &[n], SizeSyntax::Lower));
+                framings.push(("chunked-one".into(), m));
+                let sz = |s: Vec<usize>| ReadPlan::Sizes { sizes: s, limit: None, extra: 2, as_reader_calls: 1 };
+                for (fl, msg) in &framings {
+                    for (rl, rp) in [("r7", sz(vec![7])), ("r4096", sz(vec![4096])), ("read_to_end", ReadPlan::ReadToEnd)] {
+                        let mut bytes = history(h);
+                        bytes.extend_from_slice(msg);
+                        bytes.extend_from_slice(&get("/next"));
+                        v.push(Case { label: format!("history{}/len{}/{}/{}/tail-get", h, n, fl, rl), bytes, read: rp, half_close: false, nontrivial: true });
+                    }
+                }
+            }
+        }
         // bodies of megabytes (beyond any buffer, any chunk-size prefix width, any plausible
         // cap): declared, chunked by 65536, chunked in one piece
         let mib = 1usize << 20;
@@ -266,16 +288,16 @@ fn cases(tier: Tier) -> &'static Vec<Case> {
 }
 
 fn scenario(c: &Case) -> Scenario {
+    let mut plans = vec![ReqPlan::simple(); history_len(&c.bytes)];
+    plans.push(ReqPlan {
+        read: c.read.clone(),
+        finish: Finish::Respond(RespSpec::ok(3)),
+    });
+    plans.push(ReqPlan::simple());
     let mut sc = Scenario::one_conn(
-        vec![c.bytes.clone()],
+        split_history(&c.bytes),
         AppProgram {
-            plans: vec![
-                ReqPlan {
-                    read: c.read.clone(),
-                    finish: Finish::Respond(RespSpec::ok(3)),
-                },
-                ReqPlan::simple(),
-            ],
+            plans,
             recv: RecvStyle::Recv, deferred: false, thread_per_request: false },
     );
     if c.half_close {
@@ -324,7 +346,7 @@ impl Check for C03 {
     }
     fn rule(&self, tier: Tier) -> String {
         format!(
-            "bodies of 1 MiB+1 (thorough: also 3 MiB+5) declared / chunked by 65536 / chunked in one piece, read by 4096 / 100000 / n+1 / read_to_end; body length {:?} x framing {{Content-Length; chunked with chunkings one/bytewise/cut1/cutlast/cut1024/8k/thirds; Content-Length together with chunked in both header orders with equal and different values; none; Connection: upgrade}} x application read program {:?} (+2 reads after end-of-stream) x following bytes {:?}; plus chunk-size syntax {:?} and header-name/value letter case for lengths <= 1025 with read sizes 1/7/4096; plus every composition of bodies of 1..{} bytes; {} conversations, each on a real connection; bytes obtained, end-of-stream position and stickiness, body_length() and the fate of the following bytes compared with the reference model; non-trivial = body length > 0",
+            "bodies of 1 / 1024 / 1025 / 20000 bytes (declared, chunked) after a history of 64 / 100 / 1024 (thorough: 19 lengths from 63 to 4097) answered exchanges; bodies of 1 MiB+1 (thorough: also 3 MiB+5) declared / chunked by 65536 / chunked in one piece, read by 4096 / 100000 / n+1 / read_to_end; body length {:?} x framing {{Content-Length; chunked with chunkings one/bytewise/cut1/cutlast/cut1024/8k/thirds; Content-Length together with chunked in both header orders with equal and different values; none; Connection: upgrade}} x application read program {:?} (+2 reads after end-of-stream) x following bytes {:?}; plus chunk-size syntax {:?} and header-name/value letter case for lengths <= 1025 with read sizes 1/7/4096; plus every composition of bodies of 1..{} bytes; {} conversations, each on a real connection; bytes obtained, end-of-stream position and stickiness, body_length() and the fate of the following bytes compared with the reference model; non-trivial = body length > 0",
             lengths(tier), read_programs(0, tier).iter().map(|x| x.0.clone()).collect::<Vec<_>>(), tails(tier).iter().map(|t| t.0).collect::<Vec<_>>(), ALL_SYNTAX, if full(tier) { 6 } else { 4 }, cases(tier).len()
         )
     }
